@@ -43,6 +43,33 @@ func errClass(err error) string {
 	return "error: " + s
 }
 
+// c08OnlySenderFlushError: the two transcripts are the same but for the
+// returned error, and one of the two is the sender's flush failing on a
+// connection that had been closed already.
+func c08OnlySenderFlushError(a, b string) bool {
+	la, lb := strings.Split(a, "\n"), strings.Split(b, "\n")
+	if len(la) != len(lb) {
+		return false
+	}
+	diff := 0
+	for i := range la {
+		if la[i] == lb[i] {
+			continue
+		}
+		diff++
+		if !strings.HasPrefix(la[i], "return: ") || !strings.HasPrefix(lb[i], "return: ") {
+			return false
+		}
+		isFlush := func(s string) bool {
+			return strings.HasPrefix(s, "return: error: flush: set write deadline:") && strings.HasSuffix(s, "use of closed network connection")
+		}
+		if isFlush(la[i]) == isFlush(lb[i]) {
+			return false
+		}
+	}
+	return diff == 1
+}
+
 func runC08(t *testing.T, c *choice.Stream, r *Result, opt RunOpt) {
 	scSeed := uint64(c.Draw("scenario.seed", 1<<31-1))
 	type built struct {
@@ -246,6 +273,14 @@ func runC08(t *testing.T, c *choice.Stream, r *Result, opt RunOpt) {
 			r.Fire("gap")
 		}
 		if transcript != refTranscript {
+			if c08OnlySenderFlushError(refTranscript, transcript) {
+				// one specific difference, listed in known_findings.json: the receive
+				// side failed (a callback's error, no OnResult), the connection was
+				// given up, and the sender's last (empty) flush met the closed
+				// connection and had its error recorded first
+				r.Violate("segmentation-dependent", "return:sender-flush-error-wins-after-receive-failure", "delivery %q: the receive side failed and the call returned the sender's flush error instead of that failure\n--- at once:\n%.600s\n--- %s:\n%.600s", v.name, refTranscript, v.name, transcript)
+				break
+			}
 			r.Violate("segmentation-dependent", "diff:"+strings.SplitN(v.name, "@", 2)[0]+":"+wantErr, "delivery %q (%d segments, %d gaps) gives a different transcript than delivery at once\n--- at once:\n%.1200s\n--- %s:\n%.1200s", v.name, len(v.sizes), len(v.gaps), refTranscript, v.name, transcript)
 			break
 		}
